@@ -65,14 +65,15 @@ func allPerms(n int) [][]int {
 
 // genHeaders draws one set of module headers and an importer.
 func genHeaders(seed, c int64) ([]hdr, hdr, string) {
-	dates := []string{"2019-05-05", "2020-01-01", "2020-12-31", "2021-06-01"}
+	dates := []string{"2019-05-05", "2020-01-01", "2020-12-31", "2021-06-01", "2018-11-30", "2021-05-31"}
 	r := prng.For(seed, "C13", "revisions", c)
 	n := 2 + r.Intn(3)
 	var hs []hdr
 	seen := map[string]bool{}
 	for i := 0; i < n; i++ {
 		h := hdr{Name: []string{"a", "a", "a", "b"}[r.Intn(4)], ID: i}
-		for q := r.Intn(3); q > 0; q-- {
+		// up to four revision statements in any order: the latest one counts wherever it stands
+		for q := []int{0, 1, 1, 2, 2, 3, 4}[r.Intn(7)]; q > 0; q-- {
 			h.Revs = append(h.Revs, dates[r.Intn(len(dates))])
 		}
 		k := h.Name + "@" + h.latest()
@@ -669,5 +670,70 @@ func Split(j *job.Job, s *job.Sink) {
 		if c%1000 == 0 {
 			s.Sample(1, split)
 		}
+		if c%400 == 0 {
+			twoRevisionsOneSubmodule(j, s, c)
+		}
+	}
+}
+
+// twoRevisionsOneSubmodule: two revisions of a module are loaded together and both include
+// the same submodule (directly, or one level further down). Each of the two module trees
+// must have the submodule's nodes, exactly as if they were written in that revision.
+func twoRevisionsOneSubmodule(j *job.Job, s *job.Sink, c int64) {
+	r := prng.For(j.Seed, "C13", "tworevs", c)
+	nested := r.Intn(2) == 0
+	inc, subinc := "include s;", ""
+	if nested {
+		inc, subinc = "include s; include t;", "include t; "
+	}
+	fs := []map[string]string{
+		{"name": "m@2019-01-01.yang", "text": "module m { namespace \"urn:m\"; prefix m; " + inc + " revision 2019-01-01; leaf a { type string; } }"},
+		{"name": "m@2020-01-01.yang", "text": "module m { namespace \"urn:m\"; prefix m; " + inc + " revision 2020-01-01; leaf a { type string; } leaf b { type string; } }"},
+		{"name": "s.yang", "text": "submodule s { belongs-to m { prefix m; } " + subinc + "leaf fromsub { type string; } }"},
+	}
+	if nested {
+		fs = append(fs, map[string]string{"name": "t.yang", "text": "submodule t { belongs-to m { prefix m; } leaf fromnested { type string; } }"})
+	}
+	r.Shuffle(len(fs), func(a, b int) { fs[a], fs[b] = fs[b], fs[a] })
+	s.Count("two_revision_sets_sharing_a_submodule", 1)
+	ms := yang.NewModules()
+	for _, f := range fs {
+		if err := ms.Parse(f["text"], f["name"]); err != nil {
+			s.Violation(c, j.CaseID(c), "C13.split", "split-reports-error", err.Error(), fs, nil)
+			return
+		}
+	}
+	if errs := ms.Process(); len(errs) > 0 {
+		s.Violation(c, j.CaseID(c), "C13.split", "split-reports-error", errs[0].Error(), fs, nil)
+		return
+	}
+	want := []string{"fromsub"}
+	if nested {
+		want = append(want, "fromnested")
+	}
+	var lacking []string
+	for _, k := range []string{"m@2019-01-01", "m@2020-01-01"} {
+		mod := ms.Modules[k]
+		if mod == nil {
+			s.Violation(c, j.CaseID(c), "C13.split", "module-missing", k, fs, nil)
+			return
+		}
+		e := yang.ToEntry(mod)
+		for _, w := range want {
+			if e.Dir[w] == nil {
+				lacking = append(lacking, k+" lacks "+w)
+			}
+		}
+	}
+	if len(lacking) > 0 {
+		both := 0
+		for _, l := range lacking {
+			if strings.HasPrefix(l, "m@2019") {
+				both |= 1
+			} else {
+				both |= 2
+			}
+		}
+		s.Violation(c, j.CaseID(c), "C13.split", "revision-lacks-the-nodes-of-a-shared-submodule", strings.Join(lacking, "; "), fs, map[string]any{"two_revisions_include_same_submodule": true, "only_one_revision_affected": both != 3})
 	}
 }
